@@ -8,7 +8,7 @@
 
 use crate::io_common::*;
 use futures_io::AsyncRead;
-use mcx::explore::{explore_from, replay, SharedChooser};
+use mcx::explore::{explore_shard, replay, SharedChooser};
 use mcx::{Report, Tier};
 use minicbor_io::AsyncReader;
 use serde_json::json;
@@ -60,19 +60,19 @@ impl AsyncRead for Src {
         let avail = s.data.len() - s.pos;
         let maxk = avail.min(buf.len());
         // options: deliver maxk (or Ok(0)), deliver smaller k (free), Pending (1), transient error (1)
-        let (sizes, mut costs) = size_menu(maxk, s.data.len() > 32);
-        let deliver_opts = costs.len();
+        let mut menu = size_menu(maxk, s.data.len() > 32);
+        let deliver_opts = menu.n;
         let can_pend = s.consecutive_pending < s.lim.p;
         let can_err = s.errors < s.lim.e;
         if can_pend {
-            costs.push(1);
+            menu.push(1);
         }
         if can_err {
-            costs.push(1);
+            menu.push(1);
         }
-        let c = s.ch.borrow_mut().choose("poll_read", &costs);
+        let c = s.ch.borrow_mut().choose("poll_read", menu.costs());
         if c < deliver_opts {
-            let k = sizes[c];
+            let k = menu.sizes[c];
             let p = s.pos;
             buf[..k].copy_from_slice(&s.data[p..p + k]);
             s.pos += k;
@@ -335,7 +335,7 @@ pub fn scenarios(tier: Tier) -> (Vec<Scenario>, Limits, String) {
     }
     out.sort_by_key(|s: &Scenario| std::cmp::Reverse(s.avail));
     let bound = format!(
-        "streams of 0..={} frames over {} payload kinds, <= {} bytes, every truncation point, max_len in {{default, L-1, L, L+1}}, plus frames with payloads of 255..65537 bytes (reads of more than 32 bytes delivered whole or, as one deviation each, as 1 / half / all-but-one bytes); AsyncReader::new and ::with_buffer(recycled buffer); source: all delivery sizes (free), <= {} consecutive Pending, <= {} transient errors; caller: <= {} dropped futures; total deviation budget {}",
+        "streams of 0..={} frames over {} payload kinds, <= {} bytes, every truncation point, max_len in {{default, L-1, L, L+1}}, plus frames with payloads of 255..65537 bytes and of 512 KiB / 512 KiB + 1 (the default maximum; deviation budget 2) (reads of more than 32 bytes delivered whole or, as one deviation each, as 1 / half / all-but-one bytes); AsyncReader::new and ::with_buffer(recycled buffer); source: all delivery sizes (free), <= {} consecutive Pending, <= {} transient errors; caller: <= {} dropped futures; total deviation budget {}",
         max_frames, kinds.len(), max_bytes, lim.p, lim.e, lim.d, lim.b
     );
     (out, lim, bound)
@@ -348,17 +348,22 @@ pub fn run(r: &Report) {
     let first_fail: Mutex<Option<()>> = Mutex::new(None);
     let hang_prop = r.property.clone();
     const FIRST: usize = 12;
+    // distinct quiescent states over the whole exploration (merged across shards)
+    let all_states: std::sync::Mutex<HashSet<u64>> = std::sync::Mutex::new(HashSet::new());
     mcx::par::run_shards(
-        scs.len() * FIRST,
+        scs.len() * FIRST * FIRST,
         |shard| {
-            let i = shard / FIRST;
-            let first = (shard % FIRST) as u32;
+            // one scenario is split by its first two choices
+            let i = shard / (FIRST * FIRST);
+            let first = ((shard / FIRST) % FIRST) as u32;
+            let second = (shard % FIRST) as u32;
             let sc = &scs[i];
             let mut outcomes: BTreeMap<String, u64> = BTreeMap::new();
             let mut states: HashSet<u64> = HashSet::new();
             let mut nontrivial = 0u64;
             mcx::slot::case("c15-scenario", format!("{:?}", sc.json().to_string()).as_bytes());
-            let (stats, fail) = explore_from(lim.b, Some((first, FIRST as u32)), |ch| {
+            let t0 = std::time::Instant::now();
+            let (stats, fail) = explore_shard(if sc.avail > 100_000 { lim.b.min(2) } else { lim.b }, &[first, second], FIRST as u32, |ch| {
                 mcx::slot::beat();
                 let mut obs = None;
                 let res = mcx::par::guard(|| run_once(sc, lim, ch, &mut obs));
@@ -376,10 +381,14 @@ pub fn run(r: &Report) {
                 }
                 res
             });
+            if std::env::var("VERIF_TIMING").is_ok() && t0.elapsed().as_millis() > 300 {
+                eprintln!("TIMING {} ms, {} executions, shard {}/{} of {}", t0.elapsed().as_millis(), stats.executions, first, second, sc.json().to_string().chars().take(160).collect::<String>());
+            }
             r.add("poll-drop-schedules", stats.executions, nontrivial.min(stats.executions));
-            r.add_states("poll-drop-schedules", states.len() as u64, stats.choice_points);
+            r.add_states("poll-drop-schedules", 0, stats.choice_points);
+            all_states.lock().unwrap().extend(states);
             r.outcomes("poll-drop-schedules", &outcomes);
-            if i % 97 == 0 && first == 0 {
+            if i % 97 == 0 && first == 0 && second == 0 {
                 r.sample("poll-drop-schedules", json!({"scenario": sc.json(), "executions": stats.executions, "max_choice_points": stats.max_trace_len}));
             }
             if let Some((choices, labels, msg)) = fail {
@@ -409,6 +418,7 @@ pub fn run(r: &Report) {
         },
         crate::hang_handler(hang_prop),
     );
+    r.add_states("poll-drop-schedules", all_states.lock().unwrap().len() as u64, 0);
 }
 
 /// Replay one recorded case.
